@@ -32,7 +32,8 @@ TYPE_NAMES = [
     "Lambda", "Mu", "Nu", "Xi", "Omicron", "Rho", "Sigma", "Tau", "Upsilon", "Phi", "Chi",
     "Psi", "Omega", "HTTPThing", "Node2", "User", "Post", "Item", "Thing",
 ]
-ENUM_VALUES_PLAIN = ["RED", "GREEN", "BLUE", "lower", "camelValue", "With_Underscore", "A1", "X"]
+ENUM_VALUES_PLAIN = ["RED", "GREEN", "BLUE", "lower", "camelValue", "With_Underscore", "A1", "X",
+                     "type", "match", "case"]  # soft keywords are ordinary identifiers
 ENUM_VALUES_KEYWORD = ["from", "None", "True", "class", "import", "in", "is", "pass"]
 ENUM_VALUES_RESERVED = ["mro", "name", "value", "_x_", "_generate_next_value_", "_missing_"]
 
